@@ -40,6 +40,7 @@ typedef struct {
   /* timers profile */
   int conn_sit, srv_sit, offset_us, burst, second_client, idle_after_timeout;
   int backoff; /* busy connection whose outstanding query is in a backed-off attempt (deadline far away) */
+  int signals;      /* a periodic signal with a (restarting) handler lands in the library's threads: waits come back with EINTR */
   int long_timeout; /* one silent query with a per-try timeout above one second (seconds part of the back end's sleep) */
 } et_cfg_t;
 static et_cfg_t et_cfg;
@@ -1193,6 +1194,34 @@ static void *et_monitor(void *arg)
           confirm_t    = now;
         }
       } else {
+        /* second witness: the event thread is not asleep at all - since the deadline passed it has gone round its
+         * loop (entered and left a wait) 25 times or more, and each round handles the deadlines that are due; that
+         * cannot be put down to a slow machine (an interrupted wait that is restarted with the full timeout looks
+         * like this) */
+        int64_t  dl   = atomic_load(&r->deadline);
+        int      tid  = atomic_load(&et_main_et_tid), rounds = 0;
+        unsigned head = atomic_load(&et_ring_head), k;
+        for (k = 0; k < 512 && k < head; k++) {
+          et_wait_t *w = &et_ring[(head - 1 - k) % ET_RING];
+          if (atomic_load(&w->tid) == tid && atomic_load_explicit(&w->t_enter, memory_order_acquire) > dl &&
+              atomic_load_explicit(&w->t_exit, memory_order_acquire) != 0) {
+            rounds++;
+          }
+        }
+        if (rounds >= 25) {
+          char line[3000], ring[1200];
+          et_ring_excerpt(ring, sizeof(ring), now);
+          snprintf(line, sizeof(line),
+                   "V %llu timer:et:missed-deadline:%s:%s | request #%d (%s) issued %.0f ms ago is still outstanding "
+                   "%.0f ms after its deadline (4 x budget %d ms x %d + 3000 ms) although the event thread has completed %d "
+                   "waits since that deadline; backend=%s timeout=%d tries=%d signals=%d: %s\n",
+                   (unsigned long long)et_cur_idx, et_conn_name[atomic_load(&r->conn_sit)],
+                   et_sit_name[atomic_load(&r->srv_sit)], overdue, et_kind_name[atomic_load(&r->kind)],
+                   (double)(now - atomic_load(&r->t_issue)) / 1e6, (double)(now - dl) / 1e6, et_query_budget_ms(),
+                   et_req_nseq(atomic_load(&r->kind)), rounds, et_backend_name[et_cfg.backend == 0 ? 0 : et_cfg.backend - 1],
+                   et_cfg.timeout_ms, et_cfg.tries, et_cfg.signals, ring);
+          et_die(line);
+        }
         confirm_req = -1;
         if (now > atomic_load(&r->deadline) + 15000 * 1000000LL && now - last_prog_t < 20000 * 1000000LL) {
           /* late, but the witness cannot be established and the run is still moving: not decidable */
